@@ -101,6 +101,24 @@ def _assert_site(prog, fn, rg, b, t, eb):
         tr = ty_range(rg.ty_of(a)) or ty_range(rg.ty_of(bb))
         if _within(r, tr):
             return Site(fn, b, kind, t["span"]["line"], txt, "discharged", "D1 interval %s within %s" % (r, tr))
+        if m.group(1) == "Add" and (rg.ty_of(a) or rg.ty_of(bb)) == "usize":
+            # D7: lengths of at most two distinct live allocations plus a small constant: the allocations
+            # are disjoint parts of one address space, their sizes sum well below usize::MAX
+            leaves = []
+
+            def flat(x):
+                if x[0] == "proj" and x[1][0] == "binop" and x[1][1] == "AddWithOverflow" and x[2] == ".0":
+                    flat(x[1][2]); flat(x[1][3])
+                elif x[0] == "binop" and x[1] in ("Add", "AddWithOverflow"):
+                    flat(x[2]); flat(x[3])
+                else:
+                    leaves.append(x)
+
+            flat(a); flat(bb)
+            lens = [expr_str(x[3][0]) for x in leaves if x[0] == "call" and (callee_name(x) or "").split("::")[-1] == "len" and len(x[3]) == 1 and rg.of(x) == (0, 2**63 - 1)]
+            consts = [x[1] for x in leaves if x[0] == "const" and isinstance(x[1], int)]
+            if len(lens) + len(consts) == len(leaves) and 1 <= len(lens) <= 2 and len(set(lens)) == len(lens) and sum(consts) <= 4096:
+                return Site(fn, b, kind, t["span"]["line"], txt, "discharged", "D7 sum of the lengths of %d distinct live allocation(s) plus %d" % (len(lens), sum(consts)))
         return Site(fn, b, kind, t["span"]["line"], txt, "open", "interval %s not within %s" % (r, tr))
     if msg in ("overflow:Shl", "overflow:Shr") and cond[0] == "binop" and cond[1] == "Lt":
         r = rg.of(cond[2])
@@ -200,6 +218,11 @@ def _call_site(prog, fn, rg, b, t, eb, ebf):
                 if ra and rb and ra[0] >= 0 and ra[1] <= rb[0]:
                     need = rb[1]
             elif nm.split("::")[-1] in ("split_at", "split_at_mut"):
+                a1s = a1
+                if a1s[0] == "proj" and a1s[1][0] == "binop" and a1s[1][1] == "SubWithOverflow" and a1s[2] == ".0":
+                    inner = a1s[1][2]
+                    if inner[0] == "call" and (callee_name(inner) or "").split("::")[-1] == "len" and inner[3] and expr_str(inner[3][0]).lstrip("&").replace("mut ", "") == re.sub(r"[()]|\.\*|Deref>::deref|&", "", src).replace("mut ", "").strip():
+                        return Site(fn, b, k, line, txt, "discharged", "D6 split point len(x) - c <= len(x) (the subtraction is checked on its own)")
                 rr = rg.of(a1)
                 need = rr[1] if rr and rr[0] >= 0 else None
         if need is not None and re.match(r"^&?(mut )?[\w.*()]+$", src):
@@ -341,6 +364,8 @@ def audit(ctx, prog, fns, justified=()):
                     if j.get("mac") and (s.mac or "") != j["mac"]:
                         continue
                     if j.get("match") and not re.search(j["match"], s.txt):
+                        continue
+                    if j.get("sem") and not j["sem"](prog, fn, b, t, ebf):
                         continue
                     s.status = "justified"
                     s.reason = j["reason"]
